@@ -9,6 +9,7 @@ LEVEL = "exploration"
 SHARDS = {"quick": 8, "thorough": 16}
 TIMEOUT = {"quick": 900, "thorough": 7200}
 REQUIRED = {"generate": 40, "rows_decoded": 40, "json_roundtrip": 40, "wasabi": 40, "sequence": 100}
+ANCHORS = ['paper_wallet:PaperWallet.generate', 'paper_wallet:PaperWallet.json', 'paper_wallet:PaperWallet.wasabi_json', 'paper_wallet:PaperWallet.group', 'paper_wallet:PaperWallet.master_data']
 RULE = ("wallets from random secrets through all constructors x both networks x accounts {0,1,2^31-2,2^31-1,random} x "
         "intervals {(0,0),(0,1),(7,8),(s,s+r),(2^31-3,2^31-1),(2^31-1,2^31)} inside [0,2^31), 0..40 rows; everything recomputed "
         "from the seed by the reference model; distinct = distinct (monitor, case) digests; a wallet is non-trivial when it "
